@@ -568,6 +568,67 @@ func genC02(dir, tier string, seed int64) {
 			}()
 		}
 	}
+	// ---- stream 3: the SIZE of a dynamic axis changes from Run to Run on one Model ----
+	sizes := goOnlyResult{Stream: "C02_batch_size_histories", Rule: "the loadable sample models and the generated batch models of C16 (inputs declared with named dynamic dimensions, several inputs sharing a name): Runs on ONE Model with batch sizes 2, 1, 3, then a failing call (an input missing), then 1, 4, 2 -- every Run compared bit for bit with the same call on a freshly loaded Model (nothing learnt from one call's sizes may bind the next)", Violations: []string{}}
+	type sizedModel struct {
+		name  string
+		bytes []byte
+		outs  []string
+		mk    func(n int) gonnx.Tensors
+	}
+	var sized []sizedModel
+	for _, sm := range sampleModels(tier == "thorough") {
+		sm := sm
+		sized = append(sized, sizedModel{name: "sample:" + sm.name, bytes: sm.bytes, outs: sm.outputs, mk: func(n int) gonnx.Tensors { return sm.mkInputs(n, n) }})
+	}
+	for _, bm := range generatedBatchModels(rand.New(rand.NewSource(seed + 5))) {
+		bm := bm
+		rr := rand.New(rand.NewSource(seed + 9))
+		sized = append(sized, sizedModel{name: bm.name, bytes: bm.bytes, outs: bm.outputs, mk: func(n int) gonnx.Tensors {
+			t := gonnx.Tensors{}
+			for i, x := range bm.mk(n, rr) {
+				t[bm.inputs[i]] = x
+			}
+			return t
+		}})
+	}
+	for _, sm := range sized {
+		shared, err := gonnx.NewModelFromBytes(sm.bytes)
+		if err != nil {
+			continue
+		}
+		for step, n := range []int{2, 1, 3, -1, 1, 4, 2} {
+			sizes.N++
+			var in gonnx.Tensors
+			if n < 0 { // the failing call
+				in = sm.mk(2)
+				for k := range in {
+					delete(in, k)
+					break
+				}
+			} else {
+				in = sm.mk(n)
+			}
+			fin := gonnx.Tensors{}
+			for k, t := range in {
+				fin[k] = t.Clone().(tensor.Tensor)
+			}
+			out, err, _ := runRec(shared, in)
+			fresh, ferr0 := gonnx.NewModelFromBytes(sm.bytes)
+			if ferr0 != nil {
+				break
+			}
+			fout, ferr, _ := runRec(fresh, fin)
+			if a, b := outSnap(out, err, sm.outs), outSnap(fout, ferr, sm.outs); a != b {
+				if len(sizes.Violations) < 10 {
+					sizes.Violations = append(sizes.Violations, fmt.Sprintf("%s: Run %d of the history (batch size %d after other sizes) differs from a fresh Model on the same inputs: %.300s  vs fresh  %.300s", sm.name, step, n, a, b))
+				}
+				break
+			}
+		}
+	}
+	sizes.Distinct = sizes.N
+	meta.GoOnly = append(meta.GoOnly, sizes)
 	if len(hist.Violations) > 25 {
 		hist.Violations = hist.Violations[:25]
 	}
